@@ -45,6 +45,7 @@ pub struct GenCfg {
     /// percent chance that a fragment on an abstract type is spread at that type (needs
     /// `__typename` in the fragment)
     pub extensions: bool,
+    pub mutual_rec_percent: u32,
     pub min_enums: usize,
     pub min_inputs: usize,
     pub self_ref_percent: u32,
@@ -79,6 +80,7 @@ impl Default for GenCfg {
             var_defaults: true,
             field_args: true,
             extensions: true,
+            mutual_rec_percent: 15,
             min_enums: 0,
             min_inputs: 0,
             self_ref_percent: 25,
@@ -675,6 +677,31 @@ impl<'a> DocGen<'a> {
             let members = schema.possible_types(parent);
             for m in &members {
                 let mname = schema.objects[*m].name.clone();
+                // two named fragments on this member type side by side, when two with disjoint keys exist
+                {
+                    let on_m: Vec<(String, BTreeSet<String>)> = self
+                        .frags
+                        .iter()
+                        .filter(|f| f.on == mname)
+                        .map(|f| (f.name.clone(), frag_top_keys(&f.name, &self.frags)))
+                        .filter(|(_, k)| k.is_disjoint(&common))
+                        .collect();
+                    let mut pair: Option<(String, String)> = None;
+                    for (i, (a, ka)) in on_m.iter().enumerate() {
+                        for (b, kb) in on_m.iter().skip(i + 1) {
+                            if ka.is_disjoint(kb) && pair.is_none() {
+                                pair = Some((a.clone(), b.clone()));
+                            }
+                        }
+                    }
+                    if let Some((a, b)) = pair {
+                        if t.chance(40) {
+                            items.push(Selection::Spread(a));
+                            items.push(Selection::Spread(b));
+                            continue;
+                        }
+                    }
+                }
                 let choice = t.weighted(&[35, 45, 20]);
                 if choice == 0 {
                     continue;
@@ -700,7 +727,7 @@ impl<'a> DocGen<'a> {
                         placed = true;
                     }
                 }
-                if placed && t.chance(15) {
+                if placed && t.chance(45) {
                     // a second *named fragment* on the same member type (two flattened parts; supported)
                     let mut taken = BTreeSet::new();
                     top_keys(&items[items.len() - 1..], &self.frags, &mut taken, &mut vec![]);
@@ -894,7 +921,14 @@ pub fn gen_document(t: &mut Tape, schema: &mut Schema, cfg: &GenCfg) -> Document
         for i in 0..schema_ro.unions.len() {
             on_opts.push(Named::Union(i));
         }
-        let on = *t.pick(&on_opts);
+        let mut on = *t.pick(&on_opts);
+        // several fragments on one type (spread side by side they become several flattened parts)
+        if !g.frags.is_empty() && t.chance(35) {
+            let prev = t.pick(&g.frags).on.clone();
+            if let Some(n) = schema_ro.find_type(&prev) {
+                on = n;
+            }
+        }
         let name = names::frag_name(t, &mut module_scope, &cfg.names);
         let depth = t.below(cfg.max_depth);
         let mut sel = g.sel_set(t, on, depth, &BTreeSet::new());
@@ -967,7 +1001,7 @@ pub fn gen_document(t: &mut Tape, schema: &mut Schema, cfg: &GenCfg) -> Document
     }
 
     // D9 family: a pair of mutually recursive fragments A -> B -> A through a terminable field
-    if cfg.fam_mutual_rec {
+    if cfg.fam_mutual_rec && t.chance(cfg.mutual_rec_percent) {
         for oi in 0..n_plain {
             let on = Named::Object(oi);
             if let Some(f) = schema_ro.objects[oi].fields.iter().find(|f| f.ty.named == on && f.ty.can_terminate()) {
